@@ -47,6 +47,17 @@ def cases(ctx):
             for ty in tys:
                 for shape in ("di", "id"):
                     out.append({"id": "%s|%s|%s:%s" % (cfg, op, shape, ty), "cfg": cfg, "op": op, "shape": shape, "ty": ty, "weight": 10})
+        if cfg == CFG_B[ctx.tier][0]:
+            # the kernel contracts used by both sides are only valid in every configuration if no debug_assert / overflow check of
+            # the wide kernels is reachable in the dev compilation: re-check that here (a reachable one IS a profile dependence)
+            out.append({"id": "kernels|K2c dispatch: no debug_assert reachable", "cfg": cfg, "op": "kernel", "shape": "k", "c16": {"id": "K2c|u256_idiv_u128 dispatch", "kind": "K2c"}, "weight": 20})
+            for sg in ("++", "+-", "-+", "--"):
+                out.append({"id": "kernels|K3 i256_div_mod_floor|signs=%s" % sg, "cfg": cfg, "op": "kernel", "shape": "k",
+                            "c16": {"id": "K3|i256_div_mod_floor|m symbolic|signs=%s" % sg, "kind": "K3a", "p": None, "signs": sg}, "weight": 20})
+            for sg in ("+", "-"):
+                for k in (0, 1, 18, 19, 36, 38):
+                    out.append({"id": "kernels|K3 i128_shifted_div_mod_floor|k=%d|signs=%s" % (k, sg), "cfg": cfg, "op": "kernel", "shape": "k",
+                                "c16": {"id": "K3|i128_shifted_div_mod_floor|k=%d|signs=%s" % (k, sg), "kind": "K3b", "k": k, "signs": sg}, "weight": 10})
         for op in UN:
             if op == "from_f64":
                 for part in range(6):
@@ -166,6 +177,13 @@ def run_case(ctx, case):
     cfgB, op, shape = case["cfg"], case["op"], case["shape"]
     if op == "from_f64":
         return run_float_spec(ctx, case)
+    if op == "kernel":
+        from . import C16
+        r = C16.run_case(ctx, case["c16"])
+        for v in r.get("violations", []):
+            v["info"]["via"] = "C16"
+        r["case"] = case["id"]
+        return r
     ty = case.get("ty")
     pa = ctx.program("dev")
     pb = ctx.program(cfgB)
@@ -322,6 +340,14 @@ def native_line(info, inputs):
 
 
 def replay(ctx, native, v):
+    if v["info"].get("via") == "C16":
+        from . import C16
+        r1 = C16.replay(ctx, {"dev": native["dev"]}, v)
+        r2 = C16.replay(ctx, {"dev": native["release"]}, v)
+        o1, o2 = str(r1.get("observed")), str(r2.get("observed"))
+        n1 = "PANIC" if "PANIC" in o1 else o1
+        n2 = "PANIC" if "PANIC" in o2 else o2
+        return {"reproduced": n1 != n2, "line": r1.get("line"), "observed": {"dev": o1, "release": o2}, "expected": "identical outcome in both profiles", "profile": "dev+release"}
     if v["info"].get("via") == "C13":
         from . import C13
         r = C13.replay(ctx, {"dev": native["release"]}, v)
